@@ -24,7 +24,7 @@ func New(opts ...Option) *Store {
 	}
 
 	s := &Store{
-		keyIndex:         make(map[string]*workflow.Record),
+		keyIndex:         make(map[string]string),
 		store:            make(map[string]*workflow.Record),
 		snapshots:        make(map[string][]*workflow.Record),
 		snapshotsOffsets: make(map[string]int),
@@ -54,7 +54,8 @@ type Store struct {
 
 	clock clock.Clock
 
-	keyIndex map[string]*workflow.Record
+	// keyIndex holds, per workflow name and foreign ID, the run ID of the most recently created run.
+	keyIndex map[string]string
 	store    map[string]*workflow.Record
 	order    []string
 
@@ -92,10 +93,6 @@ func (s *Store) Store(ctx context.Context, record *workflow.Record) error {
 	s.mu.Lock()
 	defer s.mu.Unlock()
 
-	// Add record to store
-	uk := uniqueKey(record.WorkflowName, record.ForeignID)
-	s.keyIndex[uk] = record
-
 	eventData, err := workflow.MakeOutboxEventData(*record)
 	if err != nil {
 		return err
@@ -104,6 +101,10 @@ func (s *Store) Store(ctx context.Context, record *workflow.Record) error {
 	_, previouslyExisted := s.store[record.RunID]
 	if !previouslyExisted {
 		s.order = append(s.order, record.RunID)
+
+		// Only a newly created run becomes the latest run of its workflow name and foreign ID. Updating an older run
+		// must not make it the latest again.
+		s.keyIndex[uniqueKey(record.WorkflowName, record.ForeignID)] = record.RunID
 	}
 	s.store[record.RunID] = record
 	s.outbox = append(s.outbox, workflow.OutboxEvent{
@@ -124,7 +125,12 @@ func (s *Store) Latest(ctx context.Context, workflowName, foreignID string) (*wo
 	defer s.mu.Unlock()
 
 	uk := uniqueKey(workflowName, foreignID)
-	record, ok := s.keyIndex[uk]
+	runID, ok := s.keyIndex[uk]
+	if !ok {
+		return nil, workflow.ErrRecordNotFound
+	}
+
+	record, ok := s.store[runID]
 	if !ok {
 		return nil, workflow.ErrRecordNotFound
 	}
